@@ -96,6 +96,15 @@ def bilSweep (cj : α → α) : List (Core α) → List (Core α) → List (Core
           T l s r * cj (x.get l m 0 L) * A.get s m n S * y.get r n 0 R))))))
   | _, _, _, T => T
 
+/-- the three einsums of one core step of `bilinear_form_aux`, one definition per call (regenerated from the source by
+    `harness/einsum2lean.py`; `TT.C07.bilC_eq_step` proves the chain is the one-shot step of `bilSweep`) -/
+def bilA (cj : α → α) (T : Nat → Nat → Nat → α) (x : Core α) : Nat → Nat → Nat → Nat → α :=
+  fun s r m L => sumTo x.r0 (fun l => T l s r * cj (x.get l m 0 L))
+def bilB (cj : α → α) (T : Nat → Nat → Nat → α) (x A : Core α) : Nat → Nat → Nat → Nat → α :=
+  fun L S r n => sumTo A.r0 (fun s => sumTo A.m (fun m => bilA cj T x s r m L * A.get s m n S))
+def bilC (cj : α → α) (T : Nat → Nat → Nat → α) (x A y : Core α) : Nat → Nat → Nat → α :=
+  fun L S R => sumTo y.r0 (fun r => sumTo A.n (fun n => bilB cj T x A L S r n * y.get r n 0 R))
+
 def bilinear (cj : α → α) (xs As ys : List (Core α)) : α :=
   bilSweep cj xs As ys (fun _ _ _ => 1) 0 0 0
 
